@@ -37,6 +37,9 @@ VARIABLES inst,    \* slot -> NoInst or [kind, cls, tok, ek, dk]
 
 vars == <<inst, dead, perm, nops, last, hist>>
 view == <<inst, dead, perm, nops, last>>
+\* without the operation counter the abstract state space is finite: with this VIEW and a large MaxOps TLC visits
+\* every reachable configuration, i.e. the invariants hold after operation sequences of ANY length (MC_API_full.cfg)
+viewfull == <<inst, dead, perm, last>>
 
 NoInst == [kind |-> "none"]
 NoObs == [op |-> "none"]
